@@ -115,6 +115,52 @@ Definition mf_incr : bytes -> mres :=
 Definition mf_bad : bytes -> mres := fun _ => MFail EDecode.
 Definition mf_panic : bytes -> mres := fun _ => MFail EPanic.
 
+(** Set-valued entries: the JSON object {"a":1,"c":1} over one-letter keys,
+    as json.Marshal prints a map[string]int or a struct of omitempty int
+    fields (keys sorted).  A Mutate that adds or removes an element, as a
+    function of the stored bytes: what the function is shown is the stored
+    value and nothing else. *)
+Fixpoint set_members (fuel : nat) (s : bytes) : option (list N) :=
+  match fuel with
+  | O => None
+  | S n =>
+      match s with
+      | [34; c; 34; 58; 49; 125] => Some [c]
+      | 34 :: c :: 34 :: 58 :: 49 :: 44 :: r =>
+          match set_members n r with Some l => Some (c :: l) | None => None end
+      | _ => None
+      end
+  end.
+
+Definition set_parse (s : bytes) : option (list N) :=
+  match s with
+  | [123; 125] => Some []
+  | 123 :: r => set_members (List.length r) r
+  | _ => None
+  end.
+
+Fixpoint set_print_members (l : list N) : bytes :=
+  match l with
+  | [] => [125]
+  | [c] => [34; c; 34; 58; 49; 125]
+  | c :: t => [34; c; 34; 58; 49; 44] ++ set_print_members t
+  end.
+
+Definition set_print (l : list N) : bytes := 123 :: set_print_members l.
+
+Fixpoint set_ins (c : N) (l : list N) : list N :=
+  match l with
+  | [] => [c]
+  | x :: t => if c =? x then l else if c <? x then c :: l else x :: set_ins c t
+  end.
+
+Definition set_rem (c : N) (l : list N) : list N := filter (fun x => negb (x =? c)) l.
+
+Definition mf_sadd (c : N) : bytes -> mres :=
+  fun bs => match set_parse bs with Some l => MSet (set_print (set_ins c l)) | None => MFail EOther end.
+Definition mf_sdel (c : N) : bytes -> mres :=
+  fun bs => match set_parse bs with Some l => MSet (set_print (set_rem c l)) | None => MFail EOther end.
+
 (** ** Comparison *)
 
 Definition bytes_eqb (a b : bytes) : bool := keqb a b.
